@@ -18,7 +18,15 @@ let dash_join l = String.concat "," l
 
 let () =
   register "kern" (fun a -> match a with
-    | _comp :: _style :: _a :: _b :: r :: bsz :: tids :: bids :: _params ->
+    | _comp :: _style :: _a :: _b :: r :: bsz :: tids :: bids :: rest ->
+        (* element type of the case: f64 elements travel as their 64-bit patterns (exact) and are shown with %.17g, which is
+           round-trip exact: string equality = bit equality; the model moves them around as opaque values *)
+        let dtype = (match rest with [_; Str d] -> d | _ -> "i64") in
+        let f64 = dtype = "f64" in
+        let show_elem z = if f64 then Printf.sprintf "%.17g" (Int64.float_of_bits (Int64.of_string (string_of_z z))) else string_of_z z in
+        let sentinel = if f64 then z_of_string (Int64.to_string (Int64.bits_of_float (-999.0))) else sentinel in
+        let show_cells shape cells = "ok " ^ show_list shape ^ " ;" ^ (if cells = [] then "" else " " ^ String.concat "," (List.map show_elem cells)) in
+        let show_arr = show_cells in
         let (rshape, rdata) = getA r and bsz = getI bsz and tids = getL tids and bids = getL bids in
         let n = zprod rshape in
         let sched = List.combine tids bids in
